@@ -695,7 +695,10 @@ func checkFlow(r *Run, inst int, o *probe.Out, byID map[string][]*call) []Findin
 			if n >= 1 && !sameArgs(cs[0].Args, ref.Args[i]) {
 				add("C02", "task %d was called with %v, its providers produced %v", i, cs[0].Args, ref.Args[i])
 			}
-			if n == 0 && o.Err == nil && !multi {
+			if n > 0 && !ref.BodyRuns[i] {
+				add("C11", "task %d was invoked although its predicate panicked (the fallback values stand in for it)", i)
+			}
+			if n == 0 && o.Err == nil && !multi && ref.BodyRuns[i] {
 				if f.Tasks[i].Pred != nil {
 					add("C11", "the flow returned nil but task %d (predicate true, providers succeeded) was never invoked", i)
 				} else {
@@ -944,6 +947,7 @@ func checkPar(r *Run, inst int, o *probe.Out, byID map[string][]*call) []Finding
 		} else {
 			// C08: exactly one entry per failed function
 			var got []string
+			rtUsed := map[*call]bool{}
 			for _, e := range multierr.Errors(o.Err) {
 				var pe *cff.PanicError
 				switch {
@@ -957,9 +961,15 @@ func checkPar(r *Run, inst int, o *probe.Out, byID map[string][]*call) []Finding
 						}
 					}
 					if r.Sc.PanicKind == "runtime" {
-						for _, c := range ran {
-							if c.Kind == probe.Panic {
-								found = c.ID
+						// genuine runtime errors carry no identity: match each entry with a
+						// panicking invocation not matched yet
+						if _, isRT := pe.Value.(interface{ RuntimeError() }); isRT {
+							for _, c := range ran {
+								if c.Kind == probe.Panic && !rtUsed[c] {
+									rtUsed[c] = true
+									found = c.ID
+									break
+								}
 							}
 						}
 					}
